@@ -38,6 +38,49 @@ type ioPlugin interface {
 	Handler(ctx context.Context, request []byte, next NextIOHandler) (response []byte, err error)
 }
 
+// pluginMethod is a handler method taken from a plugin object. Method values obtained
+// through an interface all share one code pointer, so the object they belong to is kept to
+// tell them apart in Unuse.
+type pluginMethod struct {
+	handler PluginHandler
+	owner   interface{}
+}
+
+func unwrapPluginHandler(handler PluginHandler) PluginHandler {
+	if m, ok := handler.(pluginMethod); ok {
+		return m.handler
+	}
+	return handler
+}
+
+func sameOwner(a, b interface{}) (same bool) {
+	t := reflect.TypeOf(a)
+	if t != reflect.TypeOf(b) {
+		return false
+	}
+	if !t.Comparable() {
+		return true
+	}
+	defer func() {
+		if recover() != nil {
+			same = true
+		}
+	}()
+	return a == b
+}
+
+func samePluginHandler(a, b PluginHandler) bool {
+	am, aok := a.(pluginMethod)
+	bm, bok := b.(pluginMethod)
+	if aok || bok {
+		return aok && bok && sameOwner(am.owner, bm.owner)
+	}
+	return reflect.ValueOf(a).Pointer() == reflect.ValueOf(b).Pointer()
+}
+
+// SeparatePluginHandlers splits handlers and plugin objects into the handlers for an invoke
+// PluginManager and those for an IO PluginManager. Handlers taken from a plugin object remember
+// the object; they are meant to be passed to PluginManager.Use / Unuse.
 func SeparatePluginHandlers(handlers []PluginHandler) (invokeHandlers []PluginHandler, ioHandlers []PluginHandler) {
 	for _, handler := range handlers {
 		switch handler := handler.(type) {
@@ -46,12 +89,12 @@ func SeparatePluginHandlers(handlers []PluginHandler) (invokeHandlers []PluginHa
 		case IOHandler:
 			ioHandlers = append(ioHandlers, handler)
 		case plugin:
-			invokeHandlers = append(invokeHandlers, handler.InvokeHandler)
-			ioHandlers = append(ioHandlers, handler.IOHandler)
+			invokeHandlers = append(invokeHandlers, pluginMethod{InvokeHandler(handler.InvokeHandler), handler})
+			ioHandlers = append(ioHandlers, pluginMethod{IOHandler(handler.IOHandler), handler})
 		case invokePlugin:
-			invokeHandlers = append(invokeHandlers, handler.Handler)
+			invokeHandlers = append(invokeHandlers, pluginMethod{InvokeHandler(handler.Handler), handler})
 		case ioPlugin:
-			ioHandlers = append(ioHandlers, handler.Handler)
+			ioHandlers = append(ioHandlers, pluginMethod{IOHandler(handler.Handler), handler})
 		default:
 			panic("invalid plugin handler")
 		}
@@ -86,7 +129,7 @@ func (pm *pluginManager) rebuildHandler() {
 	next := pm.defaultHandler
 	n := len(pm.handlers)
 	for i := n - 1; i >= 0; i-- {
-		next = pm.getNextHandler(pm.handlers[i], next)
+		next = pm.getNextHandler(unwrapPluginHandler(pm.handlers[i]), next)
 	}
 	pm.handler = next
 }
@@ -110,9 +153,8 @@ func (pm *pluginManager) Unuse(handler ...PluginHandler) {
 	rebuild := false
 	var handlers []PluginHandler
 	for _, h := range pm.handlers {
-		hp := reflect.ValueOf(h).Pointer()
 		for _, h2 := range handler {
-			if hp == reflect.ValueOf(h2).Pointer() {
+			if samePluginHandler(h, h2) {
 				h = nil
 				rebuild = true
 				break
